@@ -6,6 +6,7 @@ b="$1"
 GEN="lean/Spdc/Driver/All.lean lean/Spdc.lean harness/src/fam/mod.rs MANIFEST.json known_findings.json"
 if ! git merge --no-ff --no-commit "$b" >/tmp/merge.out 2>&1; then
   for f in $GEN; do git checkout --ours -- "$f" 2>/dev/null || true; git add "$f" 2>/dev/null || true; done
+  for f in $(git diff --name-only --diff-filter=U | grep '^evidence/' || true); do git checkout --theirs -- "$f"; git add "$f"; done
   if git diff --name-only --diff-filter=U | grep -q .; then
     echo "REAL CONFLICTS:"; git diff --name-only --diff-filter=U; exit 1
   fi
